@@ -47,18 +47,20 @@ func c13RefYAML(wbeh string, replicas int) string {
 }
 
 type c13Obs struct {
-	Call     string
-	N        int
-	Name     string
-	Err      string
-	Names    []string
-	Infos    map[string]string
-	States   []string
-	LogNames []string
-	Before   []string
-	Restarts map[string]int // restart counter per listed process when the request returned
-	TracePos int
-	RetPos   int
+	Call      string
+	N         int
+	Name      string
+	Err       string
+	Names     []string
+	Infos     map[string]string
+	States    []string
+	LogNames  []string
+	Before    []string
+	Restarts  map[string]int // restart counter per listed process when the request returned
+	LogBefore map[int]string // in-memory log of replica i of w right before / right after the request
+	LogAfter  map[int]string
+	TracePos  int
+	RetPos    int
 }
 
 func c13Observe(w *World) (names []string, infos map[string]string, states []string, logs []string) {
@@ -85,6 +87,23 @@ func c13Observe(w *World) (names []string, infos map[string]string, states []str
 		sort.Strings(states)
 	}
 	return
+}
+
+// c13Logs returns the in-memory log of every replica of w, by replica number.
+func c13Logs(w *World) map[int]string {
+	r := w.Runner
+	out := map[int]string{}
+	names, _ := r.GetLexicographicProcessNames()
+	for _, n := range names {
+		pc, err := r.GetProcessInfo(n)
+		if err != nil || pc.Name != "w" {
+			continue
+		}
+		if l, err := r.GetProcessLog(n, 1000, 0); err == nil {
+			out[pc.ReplicaNum] = strings.Join(l, "\n")
+		}
+	}
+	return out
 }
 
 func c13Scenarios(tier string) []*Scenario {
@@ -135,6 +154,8 @@ func c13Scenarios(tier string) []*Scenario {
 				sc := &Scenario{ID: fmt.Sprintf("c13-%s-init%d-%s", wbeh, init, strings.Join(ids, ",")), YAML: c13YAML(init), K: 0, TickBudget: 0, EnvCost: 1, Horizon: 100 * time.Second,
 					Procs: map[string]*ProcScript{"d": {Launches: exits(0)}, "x": {}, "w": {}}}
 				switch wbeh {
+				case "daemon": // every replica has written a line when the request arrives
+					sc.Procs["w"] = &ProcScript{Launches: [][]Action{{Out("w-line\n")}}}
 				case "done": // the replicas have already completed when the request arrives
 					sc.Procs["w"] = &ProcScript{Launches: exits(0)}
 				case "pending": // the replicas are still waiting for d
@@ -176,6 +197,12 @@ func c13Scenarios(tier string) []*Scenario {
 						}
 						return nw == 0 && nx == 1
 					}
+					for _, f := range w.procs {
+						// the line of every replica has been read from its pipe
+						if f.Alive() && f.Name == "w" && (f.pc < len(f.script) || (f.stdout != nil && len(f.stdout.buf) > 0)) {
+							return false
+						}
+					}
 					return nw == init && nx == 1
 				}
 				var calls []APICall
@@ -190,6 +217,7 @@ func c13Scenarios(tier string) []*Scenario {
 						}
 						sort.Strings(bl)
 						o.Before = bl
+						o.LogBefore = c13Logs(w)
 						w.mu.Lock()
 						o.TracePos = len(w.trace)
 						w.mu.Unlock()
@@ -210,6 +238,7 @@ func c13Scenarios(tier string) []*Scenario {
 							o.Err = err.Error()
 						}
 						o.Names, o.Infos, o.States, o.LogNames = c13Observe(w)
+						o.LogAfter = c13Logs(w)
 						o.Restarts = map[string]int{}
 						if st, err := w.Runner.GetProcessesState(); err == nil {
 							for _, s := range st.States {
@@ -303,6 +332,12 @@ func c13Check(w *World, init int, wbeh string) []Violation {
 		}
 		if strings.Join(o.States, ",") != strings.Join(refNames, ",") {
 			vs = append(vs, viol("C13", "state-listing:"+class, "after scale %d->%d GetProcessesState lists %v, want %v", prev, o.N, o.States, refNames))
+		}
+		for i := 0; i < prev && i < o.N; i++ {
+			// a surviving replica keeps the log it had (it may have grown meanwhile), whatever it is called now
+			if b, a := o.LogBefore[i], o.LogAfter[i]; !strings.HasPrefix(a, b) {
+				vs = append(vs, viol("C13", "survivor-log:"+class, "after scale %d->%d the in-memory log of surviving replica %d is %q, it was %q before the request", prev, o.N, i, a, b))
+			}
 		}
 		if strings.Join(o.LogNames, ",") != strings.Join(refNames, ",") {
 			vs = append(vs, viol("C13", "log-buffers:"+class, "after scale %d->%d log buffers exist for %v, want %v", prev, o.N, o.LogNames, refNames))
